@@ -239,6 +239,11 @@ var guardThrows = []string{
 	"typeof zzU16 !== \"object\" && zzU16", "zzU17", "[zzU18]", "({ a: zzU19 })", "`${zzU20}`", "zzU21 === 1", "!zzU22", "void zzU23",
 	"typeof zzU24 <= \"u\" || zzU24", "typeof zzU25 >= \"u\" && zzU25", "\"undefined\" === typeof zzU26 && zzU26",
 	"typeof zzU27 !== \"undefined\" && zzU28", "(typeof zzU29, zzU29)", "typeof (0, zzU30)", "typeof zzU31.x",
+	// the guard talks about a DIFFERENT identifier than the one that is read
+	"typeof Object !== \"undefined\" && zzV1", "typeof Object < \"u\" && zzV2", "typeof Object === \"function\" && zzV3",
+	"typeof Object === \"undefined\" || zzV4", "typeof Object !== \"undefined\" ? zzV5 : 0", "\"u\" > typeof Object && zzV6",
+	"typeof Object == \"undefined\" ? 0 : zzV7", "typeof Array != \"undefined\" && zzV8", "typeof Object >= \"u\" || zzV9",
+	"typeof zzV10 === \"undefined\" && zzV11", "typeof Object !== \"undefined\" && typeof Array !== \"undefined\" && zzV12",
 }
 
 func (g *mgen) hidden(f *mfile) string {
@@ -297,10 +302,20 @@ func (g *mgen) stmt(f *mfile, sc *scope, allowExport bool) {
 			g.note("pure:const")
 		case 1:
 			n := g.name(f, "fn")
-			add(exp(n, "fn") + "function " + n + "(x) { return $p(" + g.id(f) + ", x, " + sc.any(r) + "); }")
+			if r.Chance(35) {
+				// hoisted function used BEFORE its declaration (forward dependency edge);
+				// its body refers to nothing else, so there is no TDZ hazard
+				call := "$p(" + g.id(f) + ", " + n + "(1));"
+				pos := r.Intn(len(f.lines) + 1)
+				f.lines = append(f.lines[:pos], append([]string{call}, f.lines[pos:]...)...)
+				add(exp(n, "fn") + "function " + n + "(x) { return $p(" + g.id(f) + ", x); }")
+				g.note("pure:function-forward-use")
+			} else {
+				add(exp(n, "fn") + "function " + n + "(x) { return $p(" + g.id(f) + ", x, " + sc.any(r) + "); }")
+				g.note("pure:function")
+			}
 			sc.vals = append(sc.vals, n)
 			sc.fns = append(sc.fns, n)
-			g.note("pure:function")
 		case 2:
 			n := g.name(f, "k")
 			ext := ""
@@ -399,7 +414,18 @@ func (g *mgen) stmt(f *mfile, sc *scope, allowExport bool) {
 			sc.classes = append(sc.classes, n)
 		}
 		g.note("wrap:class-decl")
-	case k < 80: // try / block / control flow
+	case k >= 76 && k < 80: // a typeof guard that does NOT protect the read: must throw, must be kept
+		gt := guardThrows[r.Intn(len(guardThrows))]
+		switch r.Intn(3) {
+		case 0:
+			add("try { " + gt + "; } catch (e) { $p(" + g.id(f) + ", e && e.name); }")
+		case 1:
+			add("try { const q = " + gt + "; } catch (e) { $p(" + g.id(f) + ", e && e.name); }")
+		default:
+			add("try { const q = [" + gt + "]; } catch (e) { $p(" + g.id(f) + ", e && e.name); }")
+		}
+		g.note("guard-throws")
+	case k < 76: // try / block / control flow
 		switch r.Intn(6) {
 		case 0:
 			add("try { " + g.hiddenS(f) + "; } catch (e) { $p(" + g.id(f) + ", e && e.name); }")
